@@ -45,7 +45,61 @@ def p_C18(res, facts, tier):
     midi.check_routing(res, facts)
 
 
+def p_C01(res, facts, tier):
+    from .rules import dds
+    dds.table_checks(res, facts, {'attack'})
+    dds.check_calc_value(res, facts, 'C01')
+    dds.check_gates(res, facts, 'C01')
+    dds.check_tick(res, facts, 'C01')
+    dds.check_bits(res, facts, [dds.ADSR], which=('index', 'fraction_range'))
+
+
+def p_C02(res, facts, tier):
+    from .rules import dds
+    dds.check_gates(res, facts, 'C02')
+    dds.check_tick(res, facts, 'C02')
+    dds.check_set_input(res, facts)
+
+
+def p_C03(res, facts, tier):
+    from .rules import dds
+    n = dds.check_bits(res, facts, [dds.ADSR], which=('index', 'fraction'))
+    res.floor('bits_instances', n, 2)
+    dds.check_calc_value(res, facts, 'C03')
+    dds.check_gates(res, facts, 'C03')
+    dds.check_tick(res, facts, 'C03')
+    dds.table_checks(res, facts, {'attack'})
+
+
+def p_C10(res, facts, tier):
+    from .rules import dds
+    dds.check_waves(res, facts, 'C10')
+    dds.check_bits(res, facts, [dds.LFO])
+    dds.table_checks(res, facts, {'sine'})
+    dds.check_pa_methods(res, facts, dds.LFO, 'C10')
+
+
+def p_C11(res, facts, tier):
+    from .rules import dds
+    dds.check_pa_methods(res, facts, dds.LFO, 'C11')
+    dds.check_lfo_wrappers(res, facts)
+    dds.check_bits(res, facts, [dds.LFO], which=('ramp',))
+
+
+def p_C12(res, facts, tier):
+    from .rules import dds
+    dds.check_bits(res, facts, [dds.LFO])
+    dds.check_waves(res, facts, 'C12')
+    dds.table_checks(res, facts, {'sine'})
+
+
 PROPS = {
+    'C01': dict(fn=p_C01, level='other', explanation='calc_value per state and table-cell partition equals the documented blend start + (target-start)*sample as an exact polynomial term; its range over the invariant box (latched levels, sustain, table values in [0,1]) is [0,1] by vertex evaluation; start/end levels per phase; tables are the documented RC curves (node error + curvature bound); latches copy the output level. f32 rounding (<= 2 ulp) is not decided.'),
+    'C02': dict(fn=p_C02, level='other', explanation='Complete transition relation of gate_on/gate_off/tick (5 states x 3 methods, timed states forked on roll-over) against the C02 table; every timed tick programs trunc(2^24/(time*fs)) of its own phase; roll-over is implied exactly by acc+inc > mask on the advancing path and excluded on the staying path; increment >= 1 over all legal times (range computed from TimePeriod::from) and sample rates. The tick-count inequality follows from these premises by the written lemma (DESIGN §6 C02).'),
+    'C03': dict(fn=p_C03, level='proof', explanation='index() is the top 10 bits and fraction() the low 14 bits scaled to [0,1] (DDS pair terms); calc_value interpolates between adjacent cells (clamped at the end) in every timed state; gate events latch the level currently output and restart at phase 0; tick always recomputes the output from the post-state; table end points meet at phase boundaries. Over the reals; f32 rounding of the interpolation not decided.'),
+    'C10': dict(fn=p_C10, level='proof', explanation='Lfo::get per waveshape over the symbolic accumulator: exact saw/square/triangle terms with their guards implied by the path conditions, sine = interpolation of adjacent cells with wrap, all ranges within [-1,1], table within 0.0125 of sin incl. curvature; get() is read-only; accumulator stays <= mask for every increment.'),
+    'C11': dict(fn=p_C11, level='other', explanation='Effect summaries as terms: reset -> 0; set_phase -> trunc(mask*(|p| mod 1)); tick -> (acc+inc) mod 2^24; set_frequency writes only increment = trunc(2^24*f/fs); Lfo methods forward unchanged. The numeric error bounds (2^-23 relative, one counter step) follow from these formulas by the written lemma (not machine-checked).'),
+    'C12': dict(fn=p_C12, level='proof', explanation='Sine = piecewise-linear interpolation with neighbour (I+1) mod N and fraction = low bits (so adjacent phases meet, cell N-1 joins cell 0), |tbl[N-1]-tbl[0]| <= 1e-6, max cell slope <= 2*pi*1.002; triangle pieces have slopes +-4 with guards at 1/4 and 3/4 and agree at the joints. Over the reals (plus two f32 ulps allowed by the statement).'),
     'C04': dict(fn=p_C04, level='other', explanation='Effect summaries of MonoMidiReceiver::parse for every note/All-Notes-Off message over all pre-state partitions (held-list length class x latches x modes x priority) are compared with the transition table of C04 as container terms (push/retain/clear, last/max/min); gate<=>non-empty is checked as an inductive invariant. The step from the per-message table to whole streams is induction over messages (written argument, DESIGN §6 C04).'),
     'C05': dict(fn=p_C05, level='proof', explanation='Typestate extraction: exact boolean effect summaries of parse()/rising_gate()/falling_gate() over every abstract pre-state satisfying the class invariants, compared with the C05 transition table; invariants rising=>gate, falling=>!gate re-established on every post-state.'),
     'C06': dict(fn=p_C06, level='other', explanation='Receiver: every message variant on a foreign channel / unsupported variant / no message leaves all fields but the parser unchanged; every non-real-time byte class is forwarded unmodified exactly once. Parser (dependency MIR): 17 states x 24 byte classes against the MIDI 1.0 framing table. End-to-end equality with a reference decoder is the conjunction of these tables with the C04/C05/C18 handler summaries (not decided end-to-end).'),
